@@ -67,7 +67,9 @@ def model_summary(shx):
                 vals.append(round(float(v), 9) if isinstance(v, (int, float)) and not isinstance(v, bool) else (None if v in (None, '', []) else str(v).upper()))
             attrs.append((type(x).__name__.upper(), tuple(vals)))
     views = {'attributes': attrs, 'has_element': [shx.sfac_table.has_element(e) for e in shx.sfac_table.elements_list], 'sum_formula': shx.sum_formula.upper(),
-             'sum_formula_exact': shx.sum_formula_exact.upper(), 'elements_of_atoms': [a.element.upper() for a in shx.atoms.all_atoms]}
+             'sum_formula_exact': shx.sum_formula_exact.upper(), 'elements_of_atoms': [a.element.upper() for a in shx.atoms.all_atoms],
+             # the residuals SHELXL leaves in REM lines are part of the model the library builds
+             'residuals': [getattr(shx, k_, None) for k_ in ('R1', 'wr2', 'goof', 'rgoof', 'highest_peak', 'deepest_hole', 'data', 'parameters', 'num_restraints')]}
     # the diagnostics of the restraint check are part of the model as well (names compared case-insensitively)
     import re as _re
     errs = []
